@@ -278,7 +278,8 @@ type built struct {
 	wireKind string
 	sym      string // the 9 protocol fields
 	filedTag int
-	honestOf int // member index if this is exactly the honest message, else -1
+	honestOf int    // member index if this is exactly the honest message, else -1
+	branch   string // the guard of round1.Update this message is built to stop at (for the distribution only)
 	f        map[string]string
 }
 
@@ -435,6 +436,7 @@ func (s *scen) build(recipe string) built {
 	if honest {
 		b.honestOf = signer
 	}
+	b.branch = predictBranch(s, f, signer, sigSym, randSym, s.tag(dh.Bytes()))
 	b.sym = fmt.Sprintf("%s %d %d %d %s %s %d %s %s", f["wire"], s.mids[mid], b.filedTag, signer, shape, nz, s.tag(dh.Bytes()), sigSym, randSym)
 	return b
 }
@@ -749,6 +751,7 @@ func (r *runner) runScript(sc script) {
 			r.st.Filed[b.f["filed"][:1]]++
 			r.st.DataHash[b.f["dh"][:1]]++
 			r.st.IdEnc[b.f["idenc"]]++
+			r.st.Branches[b.branch]++
 			r.emit("msg "+b.sym, func() string {
 				before := s.round.State()
 				m := decode(b.wire)
@@ -869,6 +872,9 @@ func (r *runner) checkFinal(s *scen) {
 	if len(s.honest) < s.ks.k {
 		return
 	}
+	if s.life != nil && s.life.parkedLost && len(s.life.otherKeys) >= 50 {
+		return // the recorded LRU finding (reported by runLife with its own key)
+	}
 	o := s.observe(s.hash)
 	if s.ending != "done" || !o.generated || !o.genG || !o.genR {
 		// narrow classifier for the recorded finding: round1.Start was left by a panic (stored messages
@@ -945,4 +951,30 @@ func (s *scen) lostInStart(o observed) bool {
 		}
 	}
 	return false
+}
+
+// predictBranch names the guard of round1.Update a recipe is aimed at (statistics only: the generator's
+// coverage of the handler's branches, independent of what the code then does).
+func predictBranch(s *scen, f map[string]string, signer int, sigSym, randSym string, dhTag int) string {
+	switch {
+	case f["wire"] != "ok":
+		return "decode-drop"
+	case f["filed"] != "H" && f["filed"] != "K":
+		return "filed-elsewhere"
+	case f["idenc"] == "over":
+		return "panic-oversize-id"
+	case !s.pk[signer]:
+		return "no-member-key"
+	case dhTag != 0:
+		return "other-hash"
+	case signer == s.ks.n+2:
+		return "zero-id"
+	case sigSym != fmt.Sprintf("s.%d.0", signer):
+		return "bad-share"
+	case randSym == "nil":
+		return "beacon-nil"
+	case randSym != fmt.Sprintf("s.%d.%d", signer, s.tag(s.prand)):
+		return "bad-beacon"
+	}
+	return "valid-share"
 }
